@@ -28,6 +28,9 @@ CASES=[
  ('4ba9f80',['C11','C20'],'R16'),
  ('2ba22ea',['C20'],'R16'),
  ('e54c65e',['C02','C20'],'R01'),
+ ('eced17a',['C11','C09'],'R48'),
+ ('b877043',['C07','C10'],'R41'),
+ ('7c7d223',['C15','C20'],'R16'),
 ]
 def sh(*a, **k): return subprocess.run(a, capture_output=True, text=True, **k)
 def main():
